@@ -40,10 +40,11 @@ SDAI_Application_instance *ReadEntityRef(istream &, ErrorDescriptor *, const cha
 { g_entityref_calls++; g_entityref_addfileid = addFileId; g_ref_instances = instances; return g_ref_result; }
 Severity EntityValidLevel(SDAI_Application_instance *, const TypeDescriptor *ed, ErrorDescriptor *err)
 { g_evl_calls++; g_evl_desc = ed; if (g_evl_result != SEVERITY_NULL) err->GreaterSeverity(g_evl_result); return g_evl_result; }
-Severity STEPaggregate::STEPread(istream &, ErrorDescriptor *, const TypeDescriptor *, InstMgrBase *insts, int addFileId, const char *)
-{ g_aggr_addfileid = addFileId; g_aggr_instances = insts; return SEVERITY_NULL; }
-Severity SDAI_Select::STEPread(istream &, ErrorDescriptor *, InstMgrBase *instances, const char *, int addFileId, const char *)
-{ g_sel_addfileid = addFileId; g_sel_instances = instances; return SEVERITY_NULL; }
+static Severity g_sub_sev = SEVERITY_NULL; static int g_aggr_calls, g_sel_calls; static ErrorDescriptor *g_aggr_err, *g_sel_err;
+Severity STEPaggregate::STEPread(istream &, ErrorDescriptor *err, const TypeDescriptor *, InstMgrBase *insts, int addFileId, const char *)
+{ g_aggr_addfileid = addFileId; g_aggr_instances = insts; g_aggr_calls++; g_aggr_err = err; err->GreaterSeverity(g_sub_sev); return err->severity(); }   /* contract (units aggregate_cc, entaggr_cc): what went wrong is added to the caller's descriptor */
+Severity SDAI_Select::STEPread(istream &, ErrorDescriptor *err, InstMgrBase *instances, const char *, int addFileId, const char *)
+{ g_sel_addfileid = addFileId; g_sel_instances = instances; g_sel_calls++; g_sel_err = err; err->GreaterSeverity(g_sub_sev); return g_sub_sev; }   /* contract (unit select_cc): the severity of the read is returned and added to the caller's descriptor */
 static TypeDescriptor *g_nonref_desc = (TypeDescriptor *)&g_nil_storage[8];
 const TypeDescriptor *AttrDescriptor::NonRefTypeDescriptor() const { return g_nonref_desc; }
 const TypeDescriptor *AttrDescriptor::AggrElemTypeDescriptor() const { return g_nonref_desc; }
